@@ -2,7 +2,8 @@
 from corr import corr_assemble, corr_terms, corr_ghost
 import solversearch as SS
 
-MODULES = ["PyFV.Props.C07"]
+MODULES = ["PyFV.Props.C07", "PyFV.Props.GenEq", "PyFV.Props.GenEqUpw"]
+TRANSLATORS = {"T-num": "python3 harness/translate/tnum.py lean/PyFV/Gen/Stencils.lean", "T-upw": "python3 harness/translate/tupw.py lean/PyFV/Gen/StencilsUpw.lean"}
 
 
 def corr(rng, tier):
